@@ -6,11 +6,14 @@ package upstream_test
 
 import (
 	"context"
+	"crypto/tls"
 	"fmt"
+	"github.com/IrineSistiana/mosproxy/internal/upstream"
 	"os"
 	"strings"
 	"sync"
 	"sync/atomic"
+	"syscall"
 	"testing"
 	"time"
 
@@ -66,7 +69,21 @@ func TestVfC18UpstreamClose(t *testing.T) {
 			}
 		}()
 		before := vfSocketInodes()
-		u := vfNewUpstream(t, kind, srv.Port, 0)
+		// The socket hook the package offers (Opt.Control) is used to make dials take time: from a drawn moment on every
+		// new socket of the upstream is held for 5-40 ms before it may connect, so that Close() falls into dials that are
+		// under way and complete only afterwards.
+		var dialStall atomic.Int64
+		ca, _ := vfTLSMaterial()
+		u, err := upstream.NewUpstream(vfUpstreamAddr(kind, srv.Port), upstream.Opt{TLSConfig: &tls.Config{RootCAs: ca.Pool()},
+			Control: func(network, address string, c syscall.RawConn) error {
+				if d := dialStall.Load(); d > 0 {
+					time.Sleep(time.Duration(d))
+				}
+				return nil
+			}})
+		if err != nil {
+			t.Fatalf("NewUpstream(%s): %v", kind, err)
+		}
 		if kind == "udp" && rapid.Bool().Draw(t, "useTCPFallback") {
 			tcUDP.Store(true)
 		}
@@ -82,6 +99,9 @@ func TestVfC18UpstreamClose(t *testing.T) {
 		// in-flight exchanges
 		if rapid.Bool().Draw(t, "delayedAccept") {
 			srv.AcceptDelay.Store(int64(time.Duration(rapid.IntRange(30, 300).Draw(t, "acceptDelayMs")) * time.Millisecond))
+		}
+		if rapid.Bool().Draw(t, "slowDials") {
+			dialStall.Store(int64(time.Duration(rapid.IntRange(5, 40).Draw(t, "dialStallMs")) * time.Millisecond))
 		}
 		hold.Store(true)
 		k := rapid.IntRange(1, 8).Draw(t, "inflight")
